@@ -3,6 +3,7 @@ package harness
 import (
 	"encoding/json"
 	"fmt"
+	"math"
 	"time"
 
 	"verif/simrt"
@@ -23,6 +24,9 @@ type LimitSc struct {
 	StallAt  int     `json:"stall_at"`    // consumer stalls once before reading item #StallAt (0 = never)
 	StallFor int64   `json:"stall_for"`
 	Horizon  int64   `json:"horizon"`
+	// Stalls (C04): durations by which the discipline's goroutine may be held up at the
+	// start and before any of its operations (a descheduled goroutine, a GC pause).
+	Stalls []int64 `json:"stalls,omitempty"`
 }
 
 // Burst is a producer pause followed by N writes.
@@ -176,6 +180,18 @@ func genLimit(prop string, r *simrt.SplitMix) *LimitSc {
 
 	sc.Horizon = limitHorizon(sc)
 
+	if prop == "C04" && r.Intn(3) == 0 {
+		sc.Stalls = []int64{1, pick(r, int64(2), 3, 7), sc.I/3 + 1, sc.I, 2*sc.I + 1}
+		sc.Horizon += 4 * 3 * (2*sc.I + 1)
+	}
+
+	if prop == "C04" && r.Intn(12) == 0 {
+		// "forever": Quantity elements, then nothing for centuries. The scenario (pauses,
+		// horizon) stays the one drawn for the small interval; a correct discipline lets one
+		// batch through and sleeps past the horizon.
+		sc.I = pick(r, int64(math.MaxInt64), math.MaxInt64-1, 1<<62, 1<<62+12345, 3_000_000_000_000_000_000, 1<<55)
+	}
+
 	return sc
 }
 
@@ -222,6 +238,14 @@ func limitHorizon(sc *LimitSc) int64 {
 
 func buildLimit(sc *LimitSc) (simrt.Config, func()) {
 	cfg := simrt.Config{MaxSteps: 200_000, Horizon: time.Duration(sc.Horizon)}
+
+	for _, d := range sc.Stalls {
+		cfg.StallDurs = append(cfg.StallDurs, time.Duration(d))
+	}
+
+	if len(sc.Stalls) > 0 {
+		cfg.StallPer1024, cfg.MaxStalls = 48, 3
+	}
 
 	main := func() {
 		in := make(chan int, sc.InCap)
@@ -337,6 +361,10 @@ func checkLimit(prop string, sc *LimitSc, res *simrt.Result) Verdict {
 
 	if sc.StallAt > 0 {
 		v.fault("consumer-stall")
+	}
+
+	for range h.notes("sim-stall") {
+		v.fault("discipline-goroutine-stalled")
 	}
 
 	if len(sc.ConsDel) > 0 {
